@@ -27,6 +27,10 @@ pub enum Op {
     Unchoke,
     /// announce a piece not advertised so far
     Have(u16),
+    /// the peer asks the client for a block (the client has nothing or chokes the peer: the manager ignores it)
+    PeerRequests(u8),
+    /// other traffic that must not disturb the download
+    PeerInterested(bool),
 }
 
 #[derive(Clone, Debug, Serialize, Deserialize)]
@@ -57,6 +61,8 @@ fn strategy(tier: Tier) -> BoxedStrategy<Case> {
                 1 => Just(Op::ChokeKeep),
                 2 => Just(Op::Unchoke),
                 1 => any::<u16>().prop_map(Op::Have),
+                2 => any::<u8>().prop_map(Op::PeerRequests),
+                1 => any::<bool>().prop_map(Op::PeerInterested),
             ];
             (Just(pl), Just(n), last, vec(prop::bool::weighted(0.8), n..=n), vec(op, 0..40), any::<u64>())
         })
@@ -329,6 +335,16 @@ pub fn check(c: &Case) -> Outcome {
                         sim.peer_chokes_client = false;
                         sim.observe(w, "after unchoke").await;
                     }
+                    Op::PeerRequests(i) => {
+                        let i = *i as usize % (sim.c.pieces + 1); // also one index beyond the piece count
+                        w.send_frame(conn, &RFrame::Request(i as u32, 0, 1));
+                        sim.classes.push("peer-sends-own-request");
+                        sim.observe(w, "after the peer's own request").await;
+                    }
+                    Op::PeerInterested(yes) => {
+                        w.send_frame(conn, &if *yes { RFrame::Interested } else { RFrame::NotInterested });
+                        sim.observe(w, "after interested/not interested").await;
+                    }
                     Op::Have(k) => {
                         let missing: Vec<usize> = (0..sim.c.pieces).filter(|i| !sim.advertised[*i]).collect();
                         if !missing.is_empty() {
@@ -372,7 +388,7 @@ pub fn def() -> PropDef {
             cases: |t| t.pick(25_000, 300_000),
             run: |ctx| run_proptest(ctx, "tiling", strategy(ctx.tier), check),
             replay: |v| replay_case::<Case>(v, check),
-            min_class: &[("piece-length-not-multiple-of-16KiB", 0.3812), ("shorter-last-piece", 0.2603), ("epoch-completed", 0.487), ("out-of-order-answer", 0.1492), ("duplicate-or-stale-answer", 0.1), ("progress-rule-checked", 0.0982), ("choke", 0.1029), ("choke-with-blocks-in-flight", 0.05)],
+            min_class: &[("piece-length-not-multiple-of-16KiB", 0.3812), ("shorter-last-piece", 0.2603), ("epoch-completed", 0.487), ("out-of-order-answer", 0.1492), ("duplicate-or-stale-answer", 0.1), ("progress-rule-checked", 0.0982), ("choke", 0.1029), ("choke-with-blocks-in-flight", 0.05), ("peer-sends-own-request", 0.2)],
         }],
     }
 }
